@@ -440,6 +440,10 @@ func (v *fnVC) exFor(cur, old *State, extra map[string]*T) *Ex {
 	for k, t := range v.params {
 		x.vars[k] = t
 	}
+	if v.ct != nil && v.ct.YieldN != "" && cur != nil {
+		x.vars["yielded"] = cur.get(ghostYielded, sI64)
+		x.vars["stopped"] = cur.get(ghostStopped, sBool)
+	}
 	for k, t := range extra {
 		x.vars[k] = t
 	}
@@ -738,7 +742,9 @@ func (v *fnVC) havocWrites(in ssa.Instruction, st *State, pre *State) {
 		mt := i.Map.Type().Underlying().(*types.Map)
 		v.havocMap(mt, hv)
 	case *ssa.Alloc, *ssa.MakeSlice, *ssa.MakeMap, *ssa.MakeChan, *ssa.MakeClosure, *ssa.MakeInterface:
-		hv(allocHeap, sInt)
+		if pre == nil || pre.next().S == st.next().S {
+			v.havocNext(st)
+		}
 		switch a := in.(type) {
 		case *ssa.Alloc:
 			v.havocType(a.Type().Underlying().(*types.Pointer).Elem(), hv)
@@ -906,7 +912,7 @@ func (v *fnVC) havocCallWrites(in ssa.CallInstruction, st *State) {
 				if sl, ok := c.Args[0].Type().Underlying().(*types.Slice); ok {
 					es := v.e.sortOf(sl.Elem())
 					st.set(elemHeap(es), v.e.freshConst("Hl$"+elemHeap(es), arrSort(sRef, arrSort(sI64, es))))
-					st.set(allocHeap, v.e.freshConst("Hl$next", sInt))
+					v.havocNext(st)
 					return
 				}
 			case "delete":
@@ -1023,7 +1029,7 @@ func (v *fnVC) havocByContract(ct *Contract, names []string, ptypes []types.Type
 	for _, name := range sortedKeys(scratch.m) {
 		st.set(name, v.e.freshConst("Hl$"+name, scratch.m[name].Sort))
 	}
-	st.set(allocHeap, v.e.freshConst("Hl$next", sInt))
+	v.havocNext(st)
 }
 
 func yieldClosureArg(c *ssa.CallCommon) *ssa.MakeClosure {
@@ -1074,4 +1080,12 @@ func (v *fnVC) ancestors(idx int) map[int]bool {
 	}
 	v.ancCache[idx] = a
 	return a
+}
+
+// havocNext: the allocation counter becomes unknown but never decreases.
+func (v *fnVC) havocNext(st *State) {
+	old := st.next()
+	n := v.e.freshConst("Hl$next", sInt)
+	v.e.assume(mk(sapp(">=", n.S, old.S), sBool))
+	st.set(allocHeap, n)
 }
